@@ -357,6 +357,13 @@ pub fn indirect_dependency_projects() -> Vec<Project> {
             files: vec![("main.gom".into(), format!("package Main\nimport Mid\n\n{}\n", main_body)), ("Mid/lib.gom".into(), mid.into()), ("Leaf/lib.gom".into(), leaf.into())],
             expected_stdout: None,
         });
+        // the same Main importing Leaf as well: for the bodies that never spell `Leaf::` the import is needed
+        // (if at all) only for what the type checker knows about Leaf's types
+        out.push(Project {
+            name: format!("indirect-dependency-also-imported-{}", which),
+            files: vec![("main.gom".into(), format!("package Main\nimport Mid\nimport Leaf\n\n{}\n", main_body)), ("Mid/lib.gom".into(), mid.into()), ("Leaf/lib.gom".into(), leaf.into())],
+            expected_stdout: None,
+        });
     }
     out
 }
